@@ -134,8 +134,8 @@ service:
     - [./a.env, ./b.env]
     - [{path: ./a.env, required: false}]
     - [{path: ./missing.env, required: false}]
-    - [{path: ./a.env, format: raw}]
-    - [{path: ./b.env, required: false, format: raw}]
+    - [{path: ./a.env, format: c09raw}]
+    - [{path: ./b.env, required: false, format: c09raw}]
     - [{path: ./b.env, required: true}]
   expose: [["3000", 8000], ["3000-3005/udp"]]
   external_links: [[redis_1, "project_db_1:mysql"]]
